@@ -129,3 +129,74 @@ def min_stack(prog_src, argv, W, unchecked, lo=0, hi=GENEROUS, max_steps=2_000_0
         else:
             lo = mid + 1
     return lo
+
+
+_SHRUNK = 0
+ALL_CLASSES = ('history', 'rejected-valid-program', 'internal-error', 'asm-error', 'halt',
+               'machine-fault', 'mem', 'scope', 'ctrl')
+
+
+def problems_of(prog, argv, cfg, classes=ALL_CLASSES, ref=None):
+    ev = evaluate(prog, argv, ref=ref, **cfg)
+    ps = list(ev.problems)
+    h = history_problem(ev)
+    if h:
+        ps.append(h)
+    return [(c, d) for c, d in ps if c in classes], ev
+
+
+def new_result():
+    return {'key': None, 'nontrivial': False, 'violations': [], 'counters': {'svm_runs': 0},
+            'outcomes': {}, 'faults_fired': {}, 'probes': {}, 'max': {}, 'keys': []}
+
+
+def add_counters(res, ev):
+    from ..harness import merge_counts, merge_max
+    merge_counts(res['counters'], run_counters(ev))
+    res['outcomes'][f'ref:{ev.ref.outcome}'] = res['outcomes'].get(f'ref:{ev.ref.outcome}', 0) + 1
+    if ev.res is not None:
+        k = f'svm:{ev.res.outcome}' + (f'/{ev.res.error_kind}' if ev.res.error_kind else '')
+        res['outcomes'][k] = res['outcomes'].get(k, 0) + 1
+        merge_counts(res['probes'], ev.res.probes or {})
+        merge_max(res['max'], {'svm_steps': ev.res.steps})
+        res['counters'].setdefault('traces', []).append(ev.res.trace_hash)
+        if ev.mon is not None:
+            merge_max(res['max'], {'call_depth': ev.mon.result_counts['max_call_depth']})
+        if ev.cfg.get('poison_seed') is not None:
+            res['faults_fired']['poison'] = res['faults_fired'].get('poison', 0) + 1
+
+
+def report(res, prog, argv, cfg, found, ev, classes=ALL_CLASSES, fingerprint=None,
+           do_shrink=True, budget_s=15.0, extra=None):
+    """Turn the first problem into a (minimised) violation record."""
+    global _SHRUNK
+    cls, detail = found[0]
+    mp, ma, tests, e3, d3 = prog, argv, 0, ev, detail
+    if do_shrink and _SHRUNK >= 2:
+        do_shrink = False          # many violations: minimise only the first ones per worker
+    if do_shrink:
+        _SHRUNK += 1
+        want = ev.ref.outcome
+
+        def runner(p, a):
+            f, e = problems_of(p, a, cfg, classes)
+            return f if e.ref.outcome == want else []
+        mp, ma, tests = minimise(prog, argv, {cls}, runner, budget_s=budget_s)
+        f3, e3 = problems_of(mp, ma, cfg, classes)
+        hit = [x for x in f3 if x[0] == cls]
+        if hit:
+            d3 = hit[0][1]
+        else:
+            mp, ma, e3, d3 = prog, argv, ev, detail
+    ex = {'original_src': ev.src, 'original_argv': list(argv), 'shrink_tests': tests}
+    if extra:
+        ex.update(extra)
+    res['violations'].append({'cls': cls, 'detail': d3, 'fingerprint': fingerprint,
+                              'payload': payload(mp, ma, e3, ex), 'sample': sample_of(mp, ma, e3)})
+
+
+def generic_replay(pl, classes=ALL_CLASSES, fingerprint=None):
+    prog = lang.from_json(pl['prog'])
+    found, _ = problems_of(prog, pl['argv'], pl['cfg'], classes)
+    fp = fingerprint(pl) if callable(fingerprint) else fingerprint
+    return [{'cls': c, 'detail': d, 'fingerprint': fp} for c, d in found]
